@@ -1,4 +1,4 @@
 """C14 -- WFQ and VirtualClock transmit in virtual-finish-stamp order (part 'wfq': props/part_wfq.py)."""
 from vlib.composite import Composite
 
-PROP = Composite("C14", ["wfq"], n_quick=400, n_thorough=8000, shard=40, case_timeout=30)
+PROP = Composite("C14", ["wfq"], extra_props_files=["Props/C14_Examples.v"], n_quick=400, n_thorough=8000, shard=40, case_timeout=30)
